@@ -164,7 +164,8 @@ def shard(shard, nshards, rng, tier, extra):
         s, nw, nf = S.random_format(rng)
         if nf < 0: nf = -nf
         vals = [float(S.as_number(v)) for v in S.boundary_values(rng, s, nw, nf, rng.choice([1, 2, 3]))]
-        vals.insert(rng.randint(0, len(vals)), rng.choice([1, -1]) * rng.choice([2.0**64, 2.0**65, 1e30, 1e100, rng.uniform(1, 2) * 2.0**rng.randint(64, 200)]))
+        # (the top binades included: there the scaled product of the huge element overflows to infinity inside the object array)
+        vals.insert(rng.randint(0, len(vals)), rng.choice([1, -1]) * rng.choice([2.0**64, 2.0**65, 1e30, 1e100, 1.5e308, 2.0**1023, 1.7e308, rng.uniform(1, 2) * 2.0**rng.randint(64, 200), rng.uniform(1, 2) * 2.0**rng.randint(960, 1023)]))
         cases.append({'s': s, 'nw': nw, 'nf': nf, 'r': rng.choice(RMODES), 'o': 'saturate', 'carrier': rng.choice(['arr:float64', 'list', 'tuple']),
                       'route': rng.choice(S.ROUTES[:3]), 'vals': vals})
     check_cases(cases, res, 'E:huge-mixed-with-fractional', keep_array=True)
@@ -175,6 +176,7 @@ def shard(shard, nshards, rng, tier, extra):
         vals = [rng.choice([1, -1]) * rng.choice([5e-324, 2.0 ** -1074, 2.0 ** -1070, 2.0 ** rng.randint(-1074, -1060), 3 * 2.0 ** -1074]) for _k in range(rng.choice([1, 2]))]
         if not s: vals = [abs(v) if rng.random() < 0.7 else v for v in vals]
         if rng.random() < 0.5: vals.append(float(rng.randint(0, 3) * 2 ** -nf))
+        if rng.random() < 0.4: vals.insert(rng.randint(0, len(vals)), rng.choice([0.0, -0.0]))      # (an exact zero next to a vanishing element)
         cases.append({'s': s, 'nw': nw, 'nf': nf, 'r': rng.choice(RMODES), 'o': rng.choice(OMODES), 'carrier': rng.choice(['pyfloat', 'arr:float64', 'list']) if len(vals) == 1 else rng.choice(['arr:float64', 'list']),
                       'route': rng.choice(S.ROUTES[:3]), 'vals': vals})
     check_cases(cases, res, 'T:tiny-floats-negative-n_frac', huge=False, keep_array=True)
